@@ -181,7 +181,19 @@ func (e *Executor) Execute() {
 			// blockage.
 			//
 			for _, rootNode := range e.rootNodes {
-				rootNode.Ch <- sourceEvent
+				select {
+				case rootNode.Ch <- sourceEvent:
+					// message was put on channel successfully
+				default:
+					// root node channel was full: discard or block (backpressure) based on the node's configuration,
+					// exactly as deliverToChild does for child nodes
+					if rootNode.Config.DiscardOnFullBuffer {
+						metrics.Node().DiscardedEvents.WithLabelValues(rootNode.Config.ID).Inc()
+					} else {
+						metrics.Node().BufferFullEvents.WithLabelValues(rootNode.Config.ID).Inc()
+						rootNode.Ch <- sourceEvent
+					}
+				}
 				metrics.Node().BufferedEvents.WithLabelValues(rootNode.Config.ID).Set(float64(len(rootNode.Ch)))
 			}
 		}
